@@ -197,6 +197,17 @@ def rule_R3(chk, repo, rid='C05.R3'):
     uses = [e for e in events if e[1].startswith('use:')]
     kinds = {e[1] for e in uses}
     need = {'use:labels', 'use:nid_map', 'use:column', 'use:next_rows', 'use:shape'}
+    if need - kinds == {'use:nid_map'}:
+        # the node map is still written inside the layer loop, but not by enumerating the new layer: positions recorded
+        # from any other sequence are not the bond indices of the layer that was just labelled (and the last layer is
+        # never recorded when the loop ends on an empty next layer)
+        stores = [n for n in ast.walk(loop) if isinstance(n, ast.Assign) and
+                  any(isinstance(t, ast.Subscript) and norm(t.value) == 'nid_map' for t in n.targets)]
+        if stores:
+            chk.ob(rid, where(repo, fi, stores[0]), f'the node map is recorded by enumerating the new layer `{layer}` (the list whose '
+                   f'order defines labels and columns)', False, f'`{norm(stores[0])[:70]}` is not inside `for i, nid in '
+                   f'enumerate({layer})`', key=f'{rid}|{fi.qual}|nid-map-enumerates-layer')
+            return
     if not need <= kinds:
         raise AnalysisError(f'from_opgraph: consumers of the layer ordering not all found: missing {sorted(need - kinds)}')
     first_use = min(e[0] for e in uses)
@@ -377,6 +388,8 @@ def run(chk, repo, tier):
     rule_R3(chk, repo)
     rule_R4(chk, repo)
     rule_R5(chk, repo)
+    rule_R6(chk, repo)
+    rule_R7(chk, repo)
     chk.undecided += ['equality of the compiled graph/MPO with the sum of padded chains as operators '
                       '(needs the invariant of the bipartite repartition, not a code shape)',
                       'that accumulation in the gamma dictionary is complete (decided: the accumulate / initialise idiom)']
@@ -462,3 +475,148 @@ def rule_R5(chk, repo, rid='C05.R5'):
     chk.ob(rid, where(repo, cu.methods['__eq__'], cu.methods['__eq__'].node), 'UNode: equality compares every field (operator, both '
            'quantum numbers, left node)', uf == ue, f'fields {uf}; compared {ue}', key=f'{rid}|unode-eq')
     chk.floor(rid, n + 2, 7)
+
+
+def rule_R6(chk, repo, rid='C05.R6'):
+    """lists that a callee walks in lockstep (zip over two of its parameters) are built in lockstep by the caller"""
+    chk.rule(rid, 'co-indexed lists: two lists that a callee walks with zip(p, q) over its parameters are built in lockstep by '
+                  'the caller - initialised by comprehensions over the same sequence (same filter, the sequence not rebound in '
+                  'between), reset together, and extended by one element each in the same statement block (so that the k-th '
+                  'half-chain always meets the k-th coefficient)')
+    # discover the parallel parameter pairs
+    pairs = {}
+    for q, fi in sorted(repo.funcs.items()):
+        for c in ast.walk(fi.node):
+            if isinstance(c, ast.Call) and norm(c.func) == 'zip' and len(c.args) >= 2 and \
+                    all(isinstance(a, ast.Name) and a.id in fi.params for a in c.args):
+                pairs[fi.name] = (fi, [fi.params.index(a.id) for a in c.args])
+    n = 0
+    for q, fi in sorted(repo.funcs.items()):
+        for c in ast.walk(fi.node):
+            if not (isinstance(c, ast.Call) and isinstance(c.func, ast.Name) and c.func.id in pairs):
+                continue
+            callee, idxs = pairs[c.func.id]
+            off = 1 if callee.cls and callee.params and callee.params[0] == 'self' else 0
+            args = [c.args[i - off] for i in idxs if 0 <= i - off < len(c.args)]
+            if len(args) != len(idxs) or not all(isinstance(a, ast.Name) for a in args):
+                continue
+            names = [a.id for a in args]
+            n += lockstep(chk, repo, rid, fi, names, c)
+    chk.floor(rid, n, 4, hard_min=4)
+    return n
+
+
+def _blocks(node):
+    """all statement lists of a function"""
+    for n in ast.walk(node):
+        for f in ('body', 'orelse', 'finalbody'):
+            b = getattr(n, f, None)
+            if isinstance(b, list) and b and isinstance(b[0], ast.stmt):
+                yield b
+
+
+def lockstep(chk, repo, rid, fi, names, call):
+    w = where(repo, fi, call)
+    label = ' / '.join(f'`{x}`' for x in names)
+    n = 0
+    # (1) comprehensions over the same sequence
+    inits = {}
+    order = []
+    for s in fi.node.body:
+        if isinstance(s, ast.Assign) and len(s.targets) == 1 and isinstance(s.targets[0], ast.Name):
+            order.append(s)
+            if s.targets[0].id in names and isinstance(s.value, ast.ListComp):
+                inits[s.targets[0].id] = s
+    if set(inits) == set(names):
+        gens = [inits[x].value.generators for x in names]
+        same = all(len(g) == 1 for g in gens) and len({norm(g[0].iter) for g in gens}) == 1 and \
+            len({tuple(norm(i) for i in g[0].ifs) for g in gens}) == 1 and len({norm(g[0].target) for g in gens}) == 1
+        src = {n_.id for g in gens for n_ in ast.walk(g[0].iter) if isinstance(n_, ast.Name)}
+        lines = sorted(inits[x].lineno for x in names)
+        rebound = [s for s in order if s.targets[0].id in src and lines[0] < s.lineno < lines[-1]]
+        chk.ob(rid, w, f'{fi.name}: {label} are initialised by comprehensions over the same sequence with the same filter, the '
+               f'sequence not rebound in between', same and not rebound,
+               '; '.join(f'`{norm(inits[x])[:70]}`' for x in names) +
+               (f'; `{norm(rebound[0])[:60]}` lies between them' if rebound else ''), key=f'{rid}|{fi.qual}|{"+".join(names)}|init')
+        n += 1
+    else:
+        chk.ob(rid, w, f'{fi.name}: {label} are initialised by list comprehensions', False,
+               f'initialisations found for {sorted(inits)}', key=f'{rid}|{fi.qual}|{"+".join(names)}|init')
+        n += 1
+    # (2) resets and extensions per statement block
+    k = 0
+    for b in _blocks(fi.node):
+        cnt = {x: 0 for x in names}
+        rst = {x: 0 for x in names}
+        for s in b:
+            if isinstance(s, ast.Expr) and isinstance(s.value, ast.Call) and isinstance(s.value.func, ast.Attribute) and \
+                    s.value.func.attr in ('append', 'insert', 'extend', 'pop', 'remove') and norm(s.value.func.value) in names:
+                cnt[norm(s.value.func.value)] += 1 if s.value.func.attr == 'append' else 100
+            if isinstance(s, ast.Assign) and len(s.targets) == 1 and norm(s.targets[0]) in names and not \
+                    (b is fi.node.body and isinstance(s.value, ast.ListComp)):
+                rst[norm(s.targets[0])] += 1
+            if isinstance(s, ast.AugAssign) and norm(s.target) in names:
+                cnt[norm(s.target)] += 100
+        if any(cnt.values()) or any(rst.values()):
+            k += 1
+            ok = len(set(cnt.values())) == 1 and len(set(rst.values())) == 1 and max(cnt.values()) < 100
+            first = next(s for s in b if any(isinstance(x, ast.Name) and x.id in names for x in ast.walk(s)))
+            chk.ob(rid, where(repo, fi, first), f'{fi.name}: the block at line {b[0].lineno} extends / resets {label} together',
+                   ok, f'appends {cnt}, rebindings {rst}', key=f'{rid}|{fi.qual}|{"+".join(names)}|block{k}')
+            n += 1
+    return n
+
+
+def rule_R7(chk, repo, rid='C05.R7'):
+    """the structure of the graph depends on coefficient values only through the two documented tests"""
+    chk.rule(rid, 'value-independent structure: coefficient values steer the construction only where the routine documents it - '
+                  'the filter of input chains with coefficient exactly 0 and the test whether a coefficient is still pending '
+                  'after the sweep; no other comparison, filter or truth test in from_opchains / _site_partition_halfchains '
+                  'has a coefficient-valued operand (accumulated coefficients that cancel must not change which nodes and '
+                  'edges are created)')
+    n = 0
+    for q, params, src in (('opgraph.OpGraph.from_opchains', (), coeff_source),
+                           ('opgraph._site_partition_halfchains', ['coeffs'], None)):
+        fi = repo.func(q)
+        T = Taint(repo, fi, params, src)
+        parents = {}
+        for p in ast.walk(fi.node):
+            for c in ast.iter_child_nodes(p):
+                parents[c] = p
+        in_assert = set()
+        for a in ast.walk(fi.node):
+            if isinstance(a, ast.Assert):
+                in_assert |= {id(x) for x in ast.walk(a)}
+        tests = []
+        for c in ast.walk(fi.node):
+            if id(c) in in_assert:
+                continue
+            if isinstance(c, ast.Compare):
+                ops = [c.left] + list(c.comparators)
+                if any(T.expr_tainted(o) for o in ops if not isinstance(o, ast.Constant)):
+                    tests.append(c)
+            elif isinstance(c, (ast.If, ast.While, ast.IfExp)) and not isinstance(c.test, (ast.Compare, ast.BoolOp)) and \
+                    T.expr_tainted(c.test):
+                tests.append(c.test)
+            elif isinstance(c, ast.comprehension):
+                for i in c.ifs:
+                    if not isinstance(i, ast.Compare) and T.expr_tainted(i):
+                        tests.append(i)
+        for t in tests:
+            role = None
+            if isinstance(t, ast.Compare) and len(t.ops) == 1 and isinstance(t.comparators[0], ast.Constant):
+                val = t.comparators[0].value
+                par = parents.get(t)
+                if val == 0 and isinstance(t.ops[0], ast.NotEq) and isinstance(par, ast.comprehension) and \
+                        isinstance(par.iter, ast.Name) and par.iter.id in fi.params and \
+                        norm(t.left) == f'{norm(par.target)}.coeff':
+                    role = 'filter of input chains with zero coefficient'
+                if val == 1.0 and isinstance(par, ast.If) and par.test is t and any(
+                        isinstance(s_, ast.Assign) and isinstance(s_.targets[0], ast.Attribute) and
+                        s_.targets[0].attr == 'opics' for b_ in par.body for s_ in ast.walk(b_)):
+                    role = 'test for a coefficient still pending after the sweep'
+            chk.ob(rid, where(repo, fi, t), f'{fi.name}: `{norm(t)[:70]}` is one of the documented value tests', role is not None,
+                   role or 'a coefficient value steers which nodes / edges exist', key=f'{rid}|{q}|{norm(t)[:80]}')
+            n += 1
+    chk.floor(rid, n, 2, hard_min=2)
+    return n
